@@ -329,6 +329,21 @@ func (fr *Frame) contractCall(b *ssa.BasicBlock, st *State, callee *ssa.Function
 			fc.addFact(guard, sOr(sEq(res.Agg[0].S, "0"), sApp(">", res.Agg[0].S, fc.get(old, hAlloc))))
 		}
 	}
+	// a result that the callee's contract unconditionally calls fresh, of a callee that modifies nothing, is
+	// referenced from no heap location: it is as local as an object allocated here (only for targets without
+	// reference-typed fields, which cannot point back to themselves)
+	if c.ModGiven && len(c.Modifies) == 0 && (extraGuard == "" || extraGuard == "true") && activeLogs[fc] == nil {
+		for _, en := range c.Ensures {
+			for _, name := range topLevelFresh(en.E) {
+				if v, ok := renv[name]; ok && !v.IsAg && v.Typ != nil && plainTarget(v.Typ) {
+					if fc.localRefs == nil {
+						fc.localRefs = map[string]bool{}
+					}
+					fc.localRefs[v.S] = true
+				}
+			}
+		}
+	}
 	for _, pr := range c.Premises {
 		env := &SpecEnv{fr: fr, vars: renv, now: st, old: old, pkg: callee.Pkg.Pkg}
 		t, qs := fr.evalFact(pr.E, env)
@@ -1075,4 +1090,44 @@ func (fr *Frame) innermostHeader(b *ssa.BasicBlock) *ssa.BasicBlock {
 		return nil
 	}
 	return best.header
+}
+
+// topLevelFresh returns the names x for which fresh(x) is an unconditional conjunct of e
+func topLevelFresh(e Expr) []string {
+	switch x := e.(type) {
+	case *EBin:
+		if x.Op == "&&" {
+			return append(topLevelFresh(x.X), topLevelFresh(x.Y)...)
+		}
+	case *ECall:
+		if x.Fn == "fresh" && len(x.Args) == 1 {
+			if id, ok := x.Args[0].(*EIdent); ok {
+				return []string{id.Name}
+			}
+		}
+	}
+	return nil
+}
+
+// plainTarget: pointer to big.Int (modelled as an opaque value) or to a struct without reference-typed fields
+func plainTarget(t types.Type) bool {
+	p, ok := t.Underlying().(*types.Pointer)
+	if !ok {
+		return false
+	}
+	if isBigInt(p.Elem()) {
+		return true
+	}
+	st, ok := p.Elem().Underlying().(*types.Struct)
+	if !ok {
+		return false
+	}
+	for i := 0; i < st.NumFields(); i++ {
+		switch st.Field(i).Type().Underlying().(type) {
+		case *types.Basic:
+		default:
+			return false
+		}
+	}
+	return true
 }
